@@ -603,9 +603,11 @@ impl<M: Mode, B: Iterator<Item = (Space, crate::constraints::props::PropId)>> It
                 if self.iteration_count + 1 >= k {
                     if kind == 0 {
                         self.timeout_duration = Some(std::time::Duration::ZERO);
-                    } else {
+                    } else if kind == 1 {
                         self.memory_limit_mb = Some(0);
                     }
+                    // any other kind: only the check interval is forced to 1, the limits
+                    // configured by the caller stay in force
                 }
             }
             // Periodically check timeout and memory limits to reduce overhead
